@@ -62,7 +62,7 @@
 #define VG_TEMP_OK   TREE_OK(vg_dec.temp_tree, VG_TEMP_LEN, VG_TEMP_ML)
 #define VG_DEC_OK    (BSR_OK(&vg_dec.bit_stream_reader) && vg_dec.ringbuf_pos < RING_BUFFER_SIZE && \
                       VG_CODE_OK && VG_OFFSET_OK && VG_TEMP_OK)
-#ifdef LHARK
+#if VG_LHARK           /* -DVG_LHARK=1 for the lk7 unit (checked against the method file by <unit>.params) */
 #define VG_MAX_COPY 514
 #else
 #define VG_MAX_COPY (VG_CODE_ML - 1 - 256 + COPY_THRESHOLD)
